@@ -4,7 +4,7 @@ package manifest
 
 // C10, stages "gm" and "py".
 // gm: the Go manifest package through its exported API (StreamIter + ManifestStream.FileSegmentIterByName, Extract,
-//     EscapeName/UnescapeName).  The operations run in a CHILD process (this test binary re-executed) because the
+//     BlockIterWithDuplicates + Manifest.Err, Manifest.FileSegmentIterByName, EscapeName/UnescapeName).  The operations run in a CHILD process (this test binary re-executed) because the
 //     package's panics happen in goroutines and cannot be recovered; a dead or silent child is the observation
 //     "Panic".  The child runs under ulimit -v and a progress watchdog.
 // py: sdk/python/arvados/_ranges.py and _normalize_stream.py under python3 (harness/C10/py_driver.py), on the streams
@@ -26,7 +26,7 @@ import (
 )
 
 type c10Op struct {
-	Kind  string // iter, extract, esc
+	Kind  string // iter, extract, esc, blocks, filesegs
 	Text  string // hex
 	A, B  string // hex: src/reloc or name
 	Index int
@@ -39,11 +39,20 @@ type c10IterItem struct {
 	Path string // hex
 	Segs []c10Seg
 }
+type c10Block struct {
+	Digest string
+	Size   int
+	Hints  string
+}
 type c10Res struct {
-	Index int
-	Kind  string // iter, text, err, esc
-	Iter  []c10IterItem
-	A, B  string // hex
+	Index  int
+	Kind   string // iter, text, err, esc, blocks, segs
+	Iter   []c10IterItem
+	A, B   string // hex
+	Blocks []c10Block
+	Err    bool   // blocks: Manifest.Err != nil after the channel was closed
+	ErrMsg string
+	Segs   []c10Seg
 }
 
 func hx(s string) string { return hex.EncodeToString([]byte(s)) }
@@ -75,6 +84,22 @@ func c10DoOp(op c10Op) c10Res {
 				}
 				res.Iter = append(res.Iter, item)
 			}
+		}
+	case "blocks":
+		res.Kind = "blocks"
+		m := Manifest{Text: txt}
+		for b := range m.BlockIterWithDuplicates() {
+			res.Blocks = append(res.Blocks, c10Block{b.Digest.String(), b.Size, strings.Join(b.Hints, "+")})
+		}
+		// "In order to detect parse errors, caller must check m.Err after the returned channel closes."
+		if m.Err != nil {
+			res.Err, res.ErrMsg = true, m.Err.Error()
+		}
+	case "filesegs":
+		res.Kind = "segs"
+		m := Manifest{Text: txt}
+		for seg := range m.FileSegmentIterByName(unhx(op.A)) {
+			res.Segs = append(res.Segs, c10Seg{seg.Locator, seg.Offset, seg.Len})
 		}
 	case "extract":
 		m := Manifest{Text: txt}
@@ -248,6 +273,17 @@ func c10OpsFor(seed uint64, j int, m *c10Man) []c10Op {
 	case 1:
 		name += c10NameSuffix[r.Intn(len(c10NameSuffix))] + name
 	}
+	// Manifest.FileSegmentIterByName: one canonical path of the manifest (file, else directory), one arbitrary path
+	f1 := srcs[r.Intn(len(srcs))]
+	if len(m.Files) > 0 {
+		f1 = m.Files[r.Intn(len(m.Files))]
+	}
+	f2 := srcs[r.Intn(len(srcs))]
+	if r.Chance(1, 3) {
+		f2 = c10NoisyPaths[r.Intn(len(c10NoisyPaths))]
+	} else if len(m.Files) > 0 && r.Bool() {
+		f2 = strings.TrimPrefix(m.Files[r.Intn(len(m.Files))], "./") // fixStreamName puts the "./" back
+	}
 	t := hx(m.Text)
 	return []c10Op{
 		{Kind: "iter", Text: t},
@@ -256,6 +292,9 @@ func c10OpsFor(seed uint64, j int, m *c10Man) []c10Op {
 		{Kind: "extract", Text: t, A: hx(a2), B: hx(b2)},
 		{Kind: "extract", Text: t, A: hx(a3), B: hx(b3)},
 		{Kind: "esc", A: hx(name)},
+		{Kind: "blocks", Text: t},
+		{Kind: "filesegs", Text: t, A: hx(f1)},
+		{Kind: "filesegs", Text: t, A: hx(f2)},
 	}
 }
 
@@ -315,6 +354,10 @@ func TestVerifC10GM(t *testing.T) {
 				gop = "OpIter"
 			case "extract":
 				gop = fmt.Sprintf("(OpExtract %s %s)", c10Str(unhx(op.A)), c10Str(unhx(op.B)))
+			case "blocks":
+				gop = "OpBlocks"
+			case "filesegs":
+				gop = fmt.Sprintf("(OpFileSegs %s)", c10Str(unhx(op.A)))
 			default:
 				gop = fmt.Sprintf("(OpEsc %s)", c10Str(unhx(op.A)))
 			}
@@ -341,6 +384,25 @@ func TestVerifC10GM(t *testing.T) {
 			case res.Kind == "err":
 				obs, outcome = "ObsErr", "err"
 				od["err"] = unhx(res.A)
+			case res.Kind == "blocks":
+				var bs []string
+				for _, b := range res.Blocks {
+					bs = append(bs, fmt.Sprintf("(%s, %s, %s)", c10Str(b.Digest), gN(int64(b.Size)), c10Str(b.Hints)))
+				}
+				e := "false"
+				outcome = "ok"
+				if res.Err {
+					e, outcome = "true", "err"
+				}
+				obs = "(ObsBlocks " + gList(bs) + " " + e + ")"
+				od["blocks"], od["err"] = res.Blocks, res.ErrMsg
+			case res.Kind == "segs":
+				var segs []string
+				for _, s := range res.Segs {
+					segs = append(segs, c10SegTerm(s))
+				}
+				obs, outcome = "(ObsSegs "+gList(segs)+")", "ok"
+				od["segs"] = res.Segs
 			case res.Kind == "esc":
 				obs, outcome = "(ObsEsc "+c10Str(unhx(res.A))+" "+c10Str(unhx(res.B))+")", "ok"
 				od["escaped"], od["unescaped"] = unhx(res.A), unhx(res.B)
